@@ -96,10 +96,15 @@ def main(argv=None):
         return 0 if r.get("ran") else 3
     t0 = time.time()
     os.environ["PYVC_REPO"] = repo
+    os.environ["PYVC_TIER"] = a.tier        # visible to contract modules (and, through the environment, to the spawned workers)
     mod = importlib.import_module(f"contracts.{prop}")
     tasks = []
     for ui, u in enumerate(mod.UNITS):
-        for c in u.cases():
+        cases = list(u.cases())
+        if a.tier == "thorough" and hasattr(u, "thorough_cases"):
+            # deeper case splits of the same units (more species, more degrees, every parameter combination): thorough tier only
+            cases += [c for c in u.thorough_cases() if c not in cases]
+        for c in cases:
             if a.only and a.only not in f"{u.name}[{c}]":
                 continue
             tasks.append((prop, ui, c, a.tier, repo))
